@@ -1,3 +1,60 @@
 package main
 
-func shrinkSeq(c *Case, o *Outcome, rule string) (*Case, *Outcome) { return c, o }
+// shrinkSeq minimises a failing sequential case: cut the call sequence after
+// the last call the violation needs, then drop calls one at a time.
+func shrinkSeq(c *Case, o *Outcome, rule string) (*Case, *Outcome) {
+	best, bo := cloneCase(c), o
+	budget := 400
+	try := func(cand *Case) bool {
+		if budget <= 0 {
+			return false
+		}
+		budget--
+		cand.Seq.Replay = nil
+		xo := Execute(cand)
+		if hasRule(xo, rule) && xo.Watchdog == "" {
+			best, bo = cand, xo
+			return true
+		}
+		return false
+	}
+	// binary cut from the end
+	for len(best.Seq.Ops) > 1 {
+		cand := cloneCase(best)
+		cand.Seq.Ops = cand.Seq.Ops[:len(cand.Seq.Ops)/2]
+		if !try(cand) {
+			break
+		}
+	}
+	for n := len(best.Seq.Ops) - 1; n >= 1; n-- {
+		if n >= len(best.Seq.Ops) {
+			continue
+		}
+		cand := cloneCase(best)
+		cand.Seq.Ops = cand.Seq.Ops[:n]
+		if !try(cand) {
+			break
+		}
+	}
+	changed := true
+	for changed && budget > 0 {
+		changed = false
+		for i := len(best.Seq.Ops) - 1; i >= 0; i-- {
+			if len(best.Seq.Ops) <= 1 {
+				break
+			}
+			cand := cloneCase(best)
+			cand.Seq.Ops = append(cand.Seq.Ops[:i:i], cand.Seq.Ops[i+1:]...)
+			if try(cand) {
+				changed = true
+			}
+		}
+	}
+	if best.Seq.A.PreClear > 0 {
+		cand := cloneCase(best)
+		cand.Seq.A.PreClear = 0
+		try(cand)
+	}
+	best.Minimised = true
+	return best, bo
+}
